@@ -38,7 +38,10 @@
 (*  cmd/regctl/root.go:newRegClient     -> RegctlSources (option order)    *)
 (*                                                                         *)
 (* Fix is the set of repaired behaviours; Fix = {} is the code as found    *)
-(* at /repo HEAD 69e13de:                                                  *)
+(* at /repo 69e13de.  mergeToken (8cb3b1d) and cloneTransport (2d99b41)    *)
+(* are in /repo by now: the configurations use them by default, the        *)
+(* as-found behaviour stays available by leaving the switch out (cfgs      *)
+(* X04_mc_*_asfound: expected counterexamples):                            *)
 (*   "mergeToken"  Merge tests newHost.Token (not host.Token) when it      *)
 (*                 decides to unset an existing credential helper          *)
 (*   "hubDefault"  New creates the Docker Hub entry after the options, so  *)
